@@ -58,7 +58,15 @@ func main() {
 	trm := flag.String("term", "", "print the E7 terms of the results of module functions whose key contains this string")
 	bnd := flag.String("bounds", "", "evaluate the bounds obligations of module functions whose key contains this string")
 	dump := flag.String("dump", "", "print the SSA of module functions whose key contains this string")
+	wfuncs := flag.String("write-funcs", "", "write the function keys of -repo (the reference tree) to this file and exit")
 	flag.Parse()
+	if *wfuncs != "" {
+		if err := writeRefFuncs(*repo, *wfuncs); err != nil {
+			fmt.Fprintln(os.Stderr, "obfsvet:", err)
+			os.Exit(2)
+		}
+		return
+	}
 	if *tier == "" {
 		*tier = os.Getenv("VERIF_TIER")
 	}
